@@ -9,7 +9,7 @@ for p in props:
     pid = p["id"]
     f = os.path.join(V, "props", pid + ".json")
     spec = json.load(open(f)) if os.path.exists(f) else None
-    if not spec or spec.get("not_applicable"):
+    if not spec or spec.get("not_applicable") or "level_text" not in spec:
         na.append({"property_id": pid, "reason": (spec or {}).get("not_applicable", "check not built yet in this round; no claim is made")})
         continue
     checks.append({
